@@ -15,8 +15,9 @@ CONSTANTS
   MaxSeq = 1
   InitAll = 0
   Warm = 5
-  ClassSet = {"write", "import", "rows", "groupby", "minmax", "startrows", "startgroup", "page"}
+  ClassSet = {"write", "import", "importt", "rows", "groupby", "groupby3", "minmax", "startrows", "startgroup", "startgroup3", "page"}
   LeafKinds = {"row"}
+  Script = "none"
 INIT Init
 NEXT Next
 INVARIANT Emit
